@@ -70,6 +70,14 @@ def cases(tier, rng):
                 ops += ["conn 0", "xchg 0", "xchg %d" % (m + 1), "monitor"]
                 out.append("g%d rt %s mon / %s" % (k, t, " / ".join(ops)))
                 k += 1
+    # a client stalled in its handshake does not keep the OWNER from going on: unbind of that endpoint and close of the
+    # socket return, and the well-behaved peer on the other endpoint is served in between
+    for t in ("PULL", "REP", "ROUTER", "PUB"):
+        for tr in ("tcp4", "ipc"):
+            for off in (0, 10, 64, 70):
+                ops = ["bind " + tr, "bind " + tr, "conn 1", "staller 0 off=%d mode=stop" % off, "staller 0 off=0 mode=stop", "unbind 0", "xchg 0", "close", "monitor"]
+                out.append("u%d rt %s mon / %s" % (k, t, " / ".join(ops)))
+                k += 1
     return out
 
 
@@ -95,6 +103,10 @@ def judge(line, obs, orc):
             return "message exchange with a well-behaved peer failed next to misbehaving ones: %s" % tk
         if op[0] == "staller":
             stallers.append((int(op[2][4:]), op[3][5:]))
+        if op[0] == "unbind" and tk != "u=ok":
+            return "unbind() of an endpoint with a client stalled in its handshake did not return normally: %s" % tk
+        if op[0] == "close" and tk != "close=0":
+            return "close() of a socket with clients stalled in their handshake did not return normally: %s" % tk
     # monitor: one Accepted per well-behaved client, one AcceptFailed per misbehaving client whose bytes the
     # handshake model refuses (a client that merely stalls is still pending and reports nothing)
     hb = hs_bytes(t)
